@@ -163,6 +163,21 @@ CHECKS = {
         note=('XML input. One recorded finding (a failed exponentialrate label replaces the invariant of the same location) is '
               'excluded by exact descriptor and counted; one cascading warning was repaired in /repo (fix: commit 8ba02a2).'),
     ),
+    'C09': dict(
+        engine='oracle-server + Hypothesis model generator with fault families + token-level rewriters + the repository models (harness/py/prop_C09.py)',
+        technique='metamorphic testing: meaning-preserving rewrites (redundant parentheses on the abstract tree, layout/comments/continuations, consistent renaming incl. soft keywords, keyword-operator aliases) applied to accepted and rejected models; diagnostics multisets, verdict and canonical dump compared up to the renaming',
+        category='exploration',
+        text=('Generated models (accepted, with one abstract fault, with one token-level fault incl. unterminated comments) and the '
+              '18 repository models are rewritten by R1 redundant parentheses, R2 white space / comments / continuations between '
+              'tokens, R3 consistent renaming of every user identifier (and renaming of variables to the soft keywords A U W R E '
+              'M sup inf bounds simulation), R4 keyword aliases to symbols. The multiset of (message, context) of errors and '
+              'warnings with the renaming applied, the exception class, the supported-methods verdict and the canonical document '
+              'dump with the renaming applied must be equal for the model and its rewriting.'),
+        design_ref='DESIGN.md 4/C09',
+        note=('Repository models: the dump is compared through name-free shape counts (their identifiers may coincide with dump '
+              'vocabulary); the LSC model is not renamed. Location and template names are not renamed to soft keywords (the XML '
+              'reader rejects keywords there by design). One-letter identifiers are left alone by R3.'),
+    ),
     'C10': dict(
         engine='oracle-server + formula enumeration + Hypothesis (harness/py/prop_C10.py)',
         technique='property-based testing against a reference convexity classifier: boolean formula trees over clock/integer atoms placed as guard and as invariant; complete enumeration of depth <= 2, random trees of depth <= 4; must-reject / must-accept / unconstrained',
